@@ -12,7 +12,7 @@ use std::collections::{BTreeMap, BTreeSet};
 pub static SPEC: PropSpec = PropSpec {
     id: "C07",
     level: "exploration",
-    rule: "programs: a library of 25 generic functions / methods (values built inside the generic body at a type mentioning the parameter - array literal, Ref cell, Vec pushes, closure literal -, functions whose type parameter occurs only inside a type application with concrete co-arguments, a generic struct whose fields apply other generic types to its own parameter built and taken apart at generic-application arguments, identity, pairs, swaps, apply, callbacks whose result type occurs only in the callback's return type, containers Vec / Ref / array / Opt[T] / Box[T], bounded generics through trait bounds, generics calling generics at composed types, bounded recursion) instantiated in `main` at type tuples drawn from 14 concrete types (all integer widths used, bool, string, unit, tuples, arrays, Vec, Ref, structs, enums, generic instances, function types), plus randomly generated generic-heavy programs; each program is (1) executed and compared with refsem (generics by substitution), (2) monitored after mono: no duplicate function names, no type-parameter residue in Mono/Lift/ANF or in the Go text, and at least one Mono function per distinct (generic function, type tuple) used. distinct / non-trivial = distinct (generic item, type-argument tuple) pairs instantiated",
+    rule: "programs: 16 Self-position programs and a generic + instance-specific inherent block pair in both declaration orders (executed against expected output); a library of 25 generic functions / methods (values built inside the generic body at a type mentioning the parameter - array literal, Ref cell, Vec pushes, closure literal -, functions whose type parameter occurs only inside a type application with concrete co-arguments, a generic struct whose fields apply other generic types to its own parameter built and taken apart at generic-application arguments, identity, pairs, swaps, apply, callbacks whose result type occurs only in the callback's return type, containers Vec / Ref / array / Opt[T] / Box[T], bounded generics through trait bounds, generics calling generics at composed types, bounded recursion) instantiated in `main` at type tuples drawn from 14 concrete types (all integer widths used, bool, string, unit, tuples, arrays, Vec, Ref, structs, enums, generic instances, function types), plus randomly generated generic-heavy programs; each program is (1) executed and compared with refsem (generics by substitution), (2) monitored after mono: no duplicate function names, no type-parameter residue in Mono/Lift/ANF or in the Go text, and at least one Mono function per distinct (generic function, type tuple) used. distinct / non-trivial = distinct (generic item, type-argument tuple) pairs instantiated",
     eval_counter: "instantiations",
     assumptions: &["relative to refsem (generics by substitution) and gomini; instance counting is a lower bound (statically reachable instances may exceed dynamically used ones)"],
     crash_is_violation: false,
